@@ -187,6 +187,20 @@ Section WithBody.
           end
       end.
 
+  (* Pipeline.run since the repair "validate the keyword arguments of Pipeline.run before executing anything":
+     Pipe.run_precheck on the (outer) functions and the flattened keywords comes first; `nrun` is the evaluation *)
+  Definition nrun_checked (p : npipe) (o : str) (kw : kwargs) : result str * list call :=
+    if negb (is_node (funcs p) o) || existsb (fun kv => str_eqb (fst kv) o) kw then nrun p o kw
+    else
+      match flatten_scopes (funcs p) kw with
+      | Err _ => nrun p o kw
+      | Ok fk =>
+          match run_precheck (funcs p) o (flat_vals fk) with
+          | Err e => (Err e, [])
+          | Ok _ => nrun p o kw
+          end
+      end.
+
   (* ---------- the specification level: plain recursion, no memo, no log (cf. Pipe.eval) ---------- *)
   Fixpoint neval (fuel : nat) (p : npipe) (kw : alist) (o : str) {struct fuel} : result str :=
     match fuel with
